@@ -2,6 +2,9 @@ import RoaringModel.Lemmas.CodecWF
 import RoaringModel.Lemmas.Parser
 import RoaringModel.Lemmas.RoundTrip
 import RoaringModel.Lemmas.EncodeSpec
+import RoaringModel.Lemmas.CodecKernel
+import RoaringModel.Lemmas.Canonical
+import RoaringModel.Lemmas.SpecRoundTrip
 /-!
 # C05 — serialization is exact, deterministic and format-conformant (32-bit half)
 -/
@@ -9,7 +12,8 @@ namespace Roaring.C05
 open Roaring Roaring.Parser
 
 /-- `serialize_into` writes exactly `serialized_size()` bytes. -/
-theorem C05_size (b : Bitmap) (h : BitmapWF b) : (Bitmap.serialize b).length = Bitmap.serializedSize b := by
+theorem C05_size (b : Bitmap) (h : Bitmap.WF b) : (Bitmap.serialize b).length = Bitmap.serializedSize b := by
+  have h := h.toCodec
   unfold Bitmap.serialize
   simp only [List.length_append, u32le_length, descrBytes_length, offsetBytes_length,
     payloadBytes_length b (fun c hc => (h.2 c hc).2), serializedSize_eq]
@@ -18,12 +22,12 @@ theorem C05_size (b : Bitmap) (h : BitmapWF b) : (Bitmap.serialize b).length = B
 /-- Decoding the output with `deserialize_from` (`chk = true`) or `deserialize_unchecked_from` (`chk = false`),
     in either build configuration, returns a value structurally equal to the original (hence `==`), and
     leaves untouched whatever follows the serialisation in the stream. -/
-theorem C05_decode (chk dbg : Bool) (b : Bitmap) (h : BitmapWF b) (rest : List Nat) :
+theorem C05_decode (chk dbg : Bool) (b : Bitmap) (h : Bitmap.WF b) (rest : List Nat) :
     deserialize chk dbg (Bitmap.serialize b ++ rest) = .ok (b, rest) :=
-  deserialize_serialize chk dbg b h rest
+  deserialize_serialize chk dbg b h.toCodec rest
 
 /-- the derived `==` of the model agrees: a value equals itself -/
-theorem C05_decode_eq (chk dbg : Bool) (b : Bitmap) (h : BitmapWF b) :
+theorem C05_decode_eq (chk dbg : Bool) (b : Bitmap) (h : Bitmap.WF b) :
     ∃ b', deserialize chk dbg (Bitmap.serialize b) = .ok (b', []) ∧ b' = b := by
   refine ⟨b, ?_, rfl⟩
   have := C05_decode chk dbg b h []
@@ -32,28 +36,59 @@ theorem C05_decode_eq (chk dbg : Bool) (b : Bitmap) (h : BitmapWF b) :
 /-- The bytes are the standard (run-free) Roaring encoding **determined by the element set alone**: they equal
     the independent reference encoder `Spec.encode` (written from the format specification, cross-validated
     against the upstream golden files) applied to `elems b`.  Determinism and format conformance in one
-    statement.  Partial only in the named kernel hypothesis `Kernel.bitmap_toArray` (for a well-formed bitset,
-    `to_array_store`'s listing has `len` values `< 65536` that re-assemble into the stored words), which belongs
-    to the BitmapStore lemma library; everything else (header, descriptors, offsets, array payloads, chunk
-    keys, chunk grouping of `elems`) is proved here. -/
-theorem C05_bytes_partial (hK : Kernel.bitmap_toArray) (b : Bitmap) (h : BitmapWF b) :
-    Bitmap.serialize b = Spec.encode (Bitmap.elems b) :=
-  serialize_eq_encode hK b h
+    statement.  Unconditional: the bitset bridge `Kernel.bitmap_toArray` is discharged in
+    `Lemmas/CodecKernel.lean` from the shared BitmapStore library. -/
+theorem C05_bytes (b : Bitmap) (h : Bitmap.WF b) : Bitmap.serialize b = Spec.encode (Bitmap.elems b) :=
+  serialize_eq_encode bitmap_toArray b h.toCodec
 
 /-- the full statement as a `Prop` -/
-def C05_bytes_statement : Prop := ∀ b : Bitmap, BitmapWF b → Bitmap.serialize b = Spec.encode (Bitmap.elems b)
+def C05_bytes_statement : Prop := ∀ b : Bitmap, Bitmap.WF b → Bitmap.serialize b = Spec.encode (Bitmap.elems b)
 
-/-- two values with the same elements serialise to the same bytes (history-independence) -/
-theorem C05_deterministic_partial (hK : Kernel.bitmap_toArray) (a b : Bitmap) (ha : BitmapWF a) (hb : BitmapWF b)
+theorem C05_bytes_statement_holds : C05_bytes_statement := C05_bytes
+
+/-- two values with the same elements serialise to the same bytes (history-independence): the bytes are a
+    function of the element list alone … -/
+theorem C05_deterministic (a b : Bitmap) (ha : Bitmap.WF a) (hb : Bitmap.WF b)
     (he : Bitmap.elems a = Bitmap.elems b) : Bitmap.serialize a = Bitmap.serialize b := by
-  rw [C05_bytes_partial hK a ha, C05_bytes_partial hK b hb, he]
+  rw [C05_bytes a ha, C05_bytes b hb, he]
+
+/-- … and indeed (canonical form, `Bitmap.canonical`) the two values are the same representation. -/
+theorem C05_deterministic_repr (a b : Bitmap) (ha : Bitmap.WF a) (hb : Bitmap.WF b)
+    (he : Bitmap.elems a = Bitmap.elems b) : a = b := Bitmap.canonical a b ha hb he
+
+/-- conversely, equal bytes ⇒ equal values: serialisation is injective on well-formed values -/
+theorem C05_injective (a b : Bitmap) (ha : Bitmap.WF a) (hb : Bitmap.WF b)
+    (he : Bitmap.serialize a = Bitmap.serialize b) : a = b := by
+  have h1 := C05_decode true false a ha []
+  have h2 := C05_decode true false b hb []
+  rw [he, h2] at h1
+  simp only [Except.ok.injEq, Prod.mk.injEq, and_true] at h1
+  exact h1.symm
+
+/-- Format conformance, decoder side: the strict reference decoder (written from the format specification)
+    accepts the output — cookie, size, strictly ascending keys, declared cardinalities, an offset table with the
+    true payload positions, strictly ascending array payloads, bitset payloads of the declared cardinality — and
+    reads back exactly the value's elements, leaving what follows. -/
+theorem C05_conformant (b : Bitmap) (h : Bitmap.WF b) (rest : List Nat) :
+    Spec.decode (Bitmap.serialize b ++ rest) = some (Bitmap.elems b, rest) :=
+  specDecode_serialize b h.toCodec rest
+
+/-- consequently the reference codec round-trips on the element list of every well-formed value: the two halves
+    of `SpecCodec.lean` (encoder and strict decoder, written independently of the model) agree with each other -/
+theorem C05_spec_roundtrip (b : Bitmap) (h : Bitmap.WF b) (rest : List Nat) :
+    Spec.decode (Spec.encode (Bitmap.elems b) ++ rest) = some (Bitmap.elems b, rest) := by
+  rw [← C05_bytes b h]; exact C05_conformant b h rest
+
+/-- the output is a byte string (every entry `< 256`), for every value -/
+theorem C05_is_bytes (b : Bitmap) : ∀ x ∈ Bitmap.serialize b, x < 256 := serialize_isBytes b
 
 /-- concrete agreement (no hypothesis): a two-chunk value -/
 example : Bitmap.serialize [{ key := 0, store := .array [1, 5, 65535] }, { key := 65535, store := .array [0] }]
     = Spec.encode [1, 5, 65535, 4294901760] := by rfl
 
-/-- a two-chunk value with one array chunk and one chunk key at the top of the key space meets `BitmapWF` -/
-example : BitmapWF [{ key := 0, store := .array [1, 5, 65535] }, { key := 65535, store := .array [0] }] := by
+/-- a two-chunk value with one array chunk and one chunk key at the top of the key space meets `Bitmap.WF` -/
+example : Bitmap.WF [{ key := 0, store := .array [1, 5, 65535] }, { key := 65535, store := .array [0] }] := by
+  apply BitmapWF.toWF
   refine ⟨by decide, ?_⟩
   intro c hc
   simp only [List.mem_cons, List.not_mem_nil, or_false] at hc
